@@ -9,12 +9,17 @@ SPEC = dict(
     n=dict(quick=600, thorough=30000),
     modes=["c13", "c13contact"],
     rtol=1e-9, atol=1e-12,
-    rule="mode c13: TwoPointLinearSpring/Damper/ConstantForce and LinearBushing between random bodies of random trees (Ground and "
-         "'same body twice' included); mode c13contact: HuntCrossleyForce (1-4 spheres, half space), SmoothSphereHalfSpaceForce, "
-         "ExponentialSpringForce, Hertz contacts of CompliantContactSubsystem; the P lines sum force and moment about the Ground "
+    rule="mode c13: TwoPointLinearSpring/Damper/ConstantForce and LinearBushing between random bodies of random trees (Ground, "
+         "'same body twice' included for all four); mode c13contact: HuntCrossleyForce (1-4 spheres, multi-contact), "
+         "SmoothSphereHalfSpaceForce, ExponentialSpringForce, Hertz contacts of CompliantContactSubsystem (1-4 contacts), "
+         "ElasticFoundationForce mesh scenes, CableSpring on a straight path, mesh (elastic foundation generator) and brick contacts "
+         "of CompliantContactSubsystem whose contact force carries a moment; the P lines sum force and moment about the Ground "
          "origin over *all* bodies of the contribution (tolerance 1e-11*scale); distinct = distinct input records",
-    partial="CableSpring/CableSpan and the brick / elastic-foundation generators of CompliantContactSubsystem are covered only by the "
-            "generic theorem compliant_net_wrench_zero (the shift of a contact force to the two body origins) and not exercised by "
-            "the harness; ElasticFoundationForce is exercised in C37's stream with the same third-law theorem (ef_net_wrench_zero)",
+    partial="(i) proved about the executed model and checked on the implementation: TwoPoint spring/damper/constant force, LinearBushing, "
+            "HuntCrossley (one contact and whole list), ElasticFoundationForce (one spring), SmoothSphereHalfSpace, ExponentialSpring "
+            "(body + Ground), CompliantContactSubsystem's shift of a contact force WITH moment to the two body origins "
+            "(compliant_net_wrench_zero; Hertz goes through the model, mesh and brick generators through the P lines only). "
+            "(ii) predicate only: CableSpring/CablePath on a straight path (the force application is CablePath's code, C45), the mesh and "
+            "brick generators' own resultants. (iii) not covered: cables with obstacles (CableSpan), Force::Custom",
     assumptions=["rotation matrices reported by the implementation are orthonormal (hypothesis IsOrtho of the contact theorems)"],
 )
